@@ -74,8 +74,10 @@ for _k in (1, 2, 3, 4):
 
 
 def close(a, b, tol):
-    a = np.asarray(a, dtype=float)
-    b = np.asarray(b, dtype=float)
+    """|a-b|_inf <= tol * max(1, |b|_inf) over ONE row / array (callers compare stacks row by row)"""
+    cplx = np.iscomplexobj(a) or np.iscomplexobj(b)
+    a = np.asarray(a, dtype=complex if cplx else float)
+    b = np.asarray(b, dtype=complex if cplx else float)
     if a.shape != b.shape:
         return False
     if a.size == 0:
@@ -85,23 +87,64 @@ def close(a, b, tol):
     return float(np.abs(a - b).max()) <= tol * max(1.0, float(np.abs(b).max()))
 
 
-def seq_vs_loop(p, fam, k, ns, x):
-    """the property predicate on the real code -> None if it holds, else a description"""
+def rows_close(out, ref, tol):
+    """indices of the rows of `out` that differ from the rows of `ref`, each row with its own scale (a stack that mixes
+    orders 3 and 38 of a fast-growing family must not compare order 3 with the tolerance of order 38)"""
+    return [i for i in range(len(ref)) if not close(out[i], ref[i], tol)]
+
+
+DTYPES = ['float64', 'int64', 'int32', 'float32', 'complex128']
+NSFORMS = ['list', 'tuple', 'ndarray', 'range', 'gen']
+NO_GENERATOR = {'cheby2', 'cheby4', 'cheby2_der', 'cheby4_der'}     # np.asarray(ns): need a sized sequence (see report)
+
+
+def coords_dtype(rng, kind, N, lo, hi, dtype):
+    shp = shape_of(kind, N)
+    if dtype in ('int64', 'int32'):
+        return np.asarray(rng.integers(int(math.ceil(lo)), int(math.floor(hi)) + 1, size=shp), dtype=dtype)
+    x = dyadic(rng, lo, hi, shp)
+    if dtype == 'complex128':
+        return x.astype(complex)
+    return x.astype(dtype)
+
+
+def ns_form(ns, form):
+    if form == 'tuple':
+        return tuple(ns)
+    if form == 'ndarray':
+        return np.asarray(ns)
+    if form == 'range' and ns == list(range(ns[0], ns[0] + len(ns))):
+        return range(ns[0], ns[0] + len(ns))
+    if form == 'gen':
+        return (n for n in ns)
+    return list(ns)
+
+
+def seq_vs_loop(p, fam, k, ns, x, form='list', ctx=None, item=None, case=None):
+    """the property predicate on the real code -> None if it holds, else a description.
+    Rows are compared one by one, each at 1e-10 (1e-5 for float32 input) relative to its own magnitude."""
     seq, one = FAMS[fam][0], FAMS[fam][1]
     want_shape = (len(ns), *np.shape(x))
+    tol = 2e-5 if x.dtype == np.float32 else 1e-10
     try:
-        ref = np.array([np.asarray(one(p, n, k, x), dtype=float) * np.ones(np.shape(x)) for n in ns])
+        ref = [np.asarray(one(p, n, k, x)) * np.ones(np.shape(x)) for n in ns]
     except Exception as ex:
         return f'scalar function raised {type(ex).__name__}: {ex}'
     try:
-        out = np.asarray(seq(p, list(ns), k, x))
+        if ctx is not None and form == 'list':
+            out = np.asarray(C.pure_call(ctx, item, case, lambda a, b: seq(p, a, k, b), list(ns), x))
+        else:
+            out = np.asarray(seq(p, ns_form(list(ns), form), k, x))
     except Exception as ex:
         return f'{fam}_seq raised {type(ex).__name__}: {ex}'
     if out.shape != want_shape:
         return f'{fam}_seq returned shape {out.shape}, expected (len(ns), *x.shape) = {want_shape}'
-    if not close(out, ref, 1e-10):
-        bad = [int(ns[i]) for i in range(len(ns)) if not close(out[i], ref[i], 1e-10)]
-        return f'{fam}_seq rows for orders {bad} differ from the single-order function (max |diff| {np.abs(out - ref).max():.3g})'
+    bad = rows_close(out, ref, tol)
+    if bad:
+        i = bad[0]
+        return (f'{fam}_seq rows for orders {[int(ns[j]) for j in bad]} differ from the single-order function '
+                f'(order {int(ns[i])}: seq {np.asarray(out[i]).ravel()[:3].tolist()} vs scalar {np.asarray(ref[i]).ravel()[:3].tolist()}; '
+                f'x.dtype={x.dtype}, result dtype={out.dtype})')
     return None
 
 
@@ -109,6 +152,15 @@ def all_subsets(top=8):
     out = []
     for mask in range(1, 1 << top):
         out.append([i for i in range(top) if mask >> i & 1])
+    return out
+
+
+def window_subsets(starts, width=5):
+    """every non-empty subset of {k..k+width-1} for each start k: the exhaustive small scope, moved up the order axis"""
+    out = []
+    for k in starts:
+        for mask in range(1, 1 << width):
+            out.append([k + i for i in range(width) if mask >> i & 1])
     return out
 
 
@@ -170,7 +222,8 @@ def correspondence(ctx):
     _clear()
     subsets = all_subsets(8)
     extra = random_lists(rng, scale(40, 1500))
-    lists = subsets + extra
+    windows = window_subsets(scale([6, 13, 21, 30, 35], list(range(3, 36, 2))))
+    lists = subsets + windows + extra
 
     # ---------------- 1. seq vs scalar loop on the real code, + Lean sweep model
     lines, meta = [], []
@@ -186,7 +239,22 @@ def correspondence(ctx):
                 case = {'family': fam, 'params': list(k), 'ns': list(ns), 'shape': list(x.shape), 'layout': kind}
                 tag = ('contig' if ns == list(range(ns[0], ns[0] + len(ns))) else 'gapped') + f'/start{min(ns[0], 3)}/{kind}'
                 ctx.case(f'seq:{fam}', case, nontrivial=ns != [0], tag=tag)
-                d = seq_vs_loop(p, fam, k, ns, x)
+                d = seq_vs_loop(p, fam, k, ns, x, ctx=ctx if li % 5 == 0 else None, item=f'seq:{fam}', case=case)
+                if d:
+                    ctx.pred_fail(f'seq:{fam}', case, d)
+            # coordinate dtypes other than float64 and other spellings of the order list
+            if li % scale(6, 2) == 0:
+                dt = DTYPES[1 + (li // scale(6, 2) + fi) % (len(DTYPES) - 1)]
+                if fam.endswith('_der') and dt.startswith('int'):
+                    dt = 'float32'      # integer coordinates in the *_der sweeps: handled under C09 (same allocation pattern)
+                form = NSFORMS[(li // scale(6, 2) + fi) % len(NSFORMS)]
+                if form == 'gen' and fam in NO_GENERATOR:
+                    form = 'tuple'
+                kind = SHAPES[(li + fi) % len(SHAPES)]
+                x = coords_dtype(rng, kind, len(ns), lo, hi, dt)
+                case = {'family': fam, 'params': list(k), 'ns': list(ns), 'shape': list(x.shape), 'layout': kind, 'dtype': dt, 'ns_form': form}
+                ctx.case(f'seq:{fam}', case, nontrivial=ns != [0], tag=f'dtype-{dt}/{form}')
+                d = seq_vs_loop(p, fam, k, ns, x, form=form)
                 if d:
                     ctx.pred_fail(f'seq:{fam}', case, d)
             if drv is not None:
@@ -356,11 +424,15 @@ def _pairs_vs_loop(p, kind, prs, a, b, norm=True):
     return None
 
 
-def _det_coords(shape, lo, hi):
+def _det_coords(shape, lo, hi, dtype='float64'):
     n = int(np.prod(shape)) if shape else 1
+    if str(dtype).startswith('int'):
+        lo_i, hi_i = int(math.ceil(lo)), int(math.floor(hi))
+        v = np.array([lo_i + (3 * i + 1) % (hi_i - lo_i + 1) for i in range(n)], dtype=dtype)
+        return v.reshape(shape) if shape else v[0].reshape(())
     v = lo + (hi - lo) * (np.arange(1, n + 1) / (n + 1))
     v = np.round(v * 64) / 64
-    return np.asarray(v.reshape(shape) if shape else v[0], dtype=float)
+    return np.asarray(v.reshape(shape) if shape else v[0], dtype=dtype)
 
 
 def search(ctx, hints):
@@ -385,6 +457,18 @@ def search(ctx, hints):
                 d = seq_vs_loop(p, fam, plist[0], ns, x)
                 if d:
                     return {'item': f'seq:{fam}', 'input': {'family': fam, 'params': list(plist[0]), 'ns': ns, 'shape': list(s)}, 'detail': d}
+        for fam, (seq, one, plist, (lo, hi), drv, exact) in FAMS.items():
+            for dt in ('int64', 'float32', 'complex128'):
+                if fam.endswith('_der') and dt == 'int64':
+                    continue
+                for form in ('tuple', 'ndarray', 'gen'):
+                    if form == 'gen' and fam in NO_GENERATOR:
+                        continue
+                    x = _det_coords((3,), lo, hi, dt)
+                    d = seq_vs_loop(p, fam, plist[0], ns, x, form=form)
+                    if d:
+                        return {'item': f'seq:{fam}', 'input': {'family': fam, 'params': list(plist[0]), 'ns': ns, 'shape': [3],
+                                                                'dtype': dt, 'ns_form': form}, 'detail': d}
     for prs in ([(0, 0)], [(1, 1)], [(0, 1)], [(1, 0)], [(2, 0), (1, 1)], [(1, 1), (1, -1)], [(1, -1), (1, 1)], [(2, 2), (2, -2)],
                 [(1, 1), (1, 1)], [(2, 2), (1, -1), (2, 2)], [(3, 1), (0, 0), (2, -2)], [(1, 1), (3, 1), (3, -1), (1, -1)],
                 [(4, 1), (4, -1), (5, 1), (2, -1)], [(2, 2), (4, 2), (4, -2), (2, -2), (4, 2)]):
@@ -421,7 +505,7 @@ def replay(inp):
     elif fam in FAMS:
         lo, hi = FAMS[fam][3]
         k = tuple(c.get('params', FAMS[fam][2][0]))
-        d = seq_vs_loop(p, fam, k, c['ns'], _det_coords(shp, lo, hi))
+        d = seq_vs_loop(p, fam, k, c['ns'], _det_coords(shp, lo, hi, c.get('dtype', 'float64')), form=c.get('ns_form', 'list'))
     else:
         print('no replay routine for family', fam)
         return False
